@@ -119,8 +119,13 @@ static int run_once(const std::vector<uint8_t> &v, Report &r) {
 
 // in-process shrink; candidate accepted only when it fails with the same signature
 static void shrink(std::vector<uint8_t> &v, const std::string &sig, unsigned budget) {
+	// the shrinker also has a wall clock bound (expensive cases); it only limits how small the replay file gets
+	struct timespec s0; clock_gettime(CLOCK_MONOTONIC, &s0);
+	double lim = getenv("VF_SHRINK_SECONDS") ? atof(getenv("VF_SHRINK_SECONDS")) : 120.0;
 	auto fails = [&](const std::vector<uint8_t> &c) {
 		if (!budget) return false;
+		struct timespec s1; clock_gettime(CLOCK_MONOTONIC, &s1);
+		if ((s1.tv_sec - s0.tv_sec) + (s1.tv_nsec - s0.tv_nsec) * 1e-9 > lim) { budget = 0; return false; }
 		--budget;
 		save_cur(c);
 		Report r; int rc = run_once(c, r);
@@ -316,7 +321,7 @@ int main(int argc, char **argv) {
 	uint64_t next_sample_at = 0;
 	for (uint64_t k = 0; k < cases && fail_sig.empty(); ++k) {
 		uint64_t idx = k * nworkers + g_worker;
-		if ((k & 63) == 0 && elapsed() > max_seconds) { time_up = true; break; }
+		if (elapsed() > max_seconds) { time_up = true; break; }
 		gen_case(v, seed, idx, total_cases, max_size);
 		save_cur(v);
 		Report r; r.hist = &hist;
